@@ -3,6 +3,8 @@ import CuqiVerif.Model.QMat
 import CuqiVerif.Model.C15
 import CuqiVerif.Model.C15_gauss
 import CuqiVerif.Model.C15_loop
+import CuqiVerif.Model.C15_chol
+import CuqiVerif.Model.C15_route
 open CuqiVerif CuqiVerif.Proto CuqiVerif.C15
 
 /-!
@@ -20,6 +22,11 @@ Line protocol of the C15 model (R = Rat).  Arrays: `s:<rat>` (0-d), `v:<vec>` (1
   route  <prior> <lik> <model> <ddim> <rdim> <grad> <sqrtprecs> <maxdim> -> `map=<r> ml=<r> sample=<r>`
   loop   <xmap> <L> <Ns> <callback 0|1> <Nb | -> <stream>  -> `pos=<k> cols=<matrix, row s = draw s> calls=<indices>` | `err:UnboundLocalError`
          (the sampling loop of _sampleMapCholesky as reached from sample_posterior(Ns, Nb, callback); Model/C15_loop.lean)
+  call   <MAP|ML> <disp 0|1> <userx0 0|1> <probe at start> <probe at zeros> <prior> <lik> <model> <ddim> <rdim> <maxdim>
+         -> `raise` | `route=<direct|lbfgsb|minimize> grad=<0|1> start=<user|ones> label=<s> geom=<posterior|likelihood> lines=<l1>|<l2>|…`
+         (probes: ok | notimpl | attr | other;  MAP/ML/_solve_max_point decision table, Model/C15_route.lean)
+  chol   <C>                                             -> `lu=<unit lower matrix> d=<vec>` | `err:LinAlgError`
+         (np.linalg.cholesky(C) in LDLᵀ form L = Lu·diag(√d), certified Lu·diag(d)·Luᵀ = C; Model/C15_chol.lean)
   ghist  <cov|prec|sqrtcov|sqrtprec> <len(mean)> <geometry dim | -> <MAX_DIM_INV> <arr> [set:<arr> | cc]...
          -> `new=ok|err:<Class>` then per operation `set=ok|err:<Class>` / `cc=<array>|err:<Class>` (exceptions swallowed, as
             `try/except` around each call), then `gram=<m:…|err:<Class>>` `cov=<array|none>` of the final state
@@ -118,7 +125,50 @@ def ghistLog (maxd : Nat) : GState Q → List (GOp Q) → List String → GState
     let (st', r) := st.computeCov invQ maxd
     ghistLog maxd st' ops ((match r with | .ok a => "cc=" ++ fmtArr a | .error e => "cc=err:" ++ e.toString) :: acc)
 
+/-- untrusted LDLᵀ recursion over ℚ (no pivoting); `choleskyLDL` checks its certificate -/
+def facQ : Factoriser Q := fun n C => Id.run do
+  let mut L : Array (Array Rat) := Array.replicate n (Array.replicate n 0)
+  let mut d : Array Rat := Array.replicate n 0
+  for j in [0:n] do
+    let mut dj := C j j
+    for k in [0:j] do
+      dj := dj - (L.getD j #[]).getD k 0 * (L.getD j #[]).getD k 0 * d.getD k 0
+    if dj == 0 then return none
+    d := d.set! j dj
+    L := L.set! j ((L.getD j #[]).set! j 1)
+    for i in [j+1:n] do
+      let mut v := C i j
+      for k in [0:j] do
+        v := v - (L.getD i #[]).getD k 0 * (L.getD j #[]).getD k 0 * d.getD k 0
+      L := L.set! i ((L.getD i #[]).set! j (v / dj))
+  return some ((fun i j => (L.getD i #[]).getD j 0), (fun i => d.getD i 0))
+
+def parseProbe : String → Option Probe
+  | "ok" => some .ok | "notimpl" => some .notImplemented | "attr" => some .attributeError | "other" => some .other | _ => none
+
 def step : List String → String
+  | ["call", w, disp, ux, ps, pz, pr, lk, md, dd, rd, mx] =>
+    let w? : Option Estimate := match w with | "MAP" => some .map | "ML" => some .ml | _ => none
+    let lk? : Option LikKind := match lk with | "gaussian" => some .gaussian | "other" => some .other | _ => none
+    let md? : Option ModelKind := match md with | "linear" => some .linear | "nonlinear" => some .nonlinear | _ => none
+    match w?, parseBool disp, parseBool ux, parseProbe ps, parseProbe pz, parsePrior pr, lk?, md?, dd.toNat?, rd.toNat?, mx.toNat? with
+    | some w, some disp, some ux, some ps, some pz, some pr, some lk, some md, some dd, some rd, some mx =>
+      let p : Problem := { prior := pr, lik := lk, model := md, domainDim := dd, rangeDim := rd,
+                           hasGradient := pz = .ok, hasSqrtprecs := false, maxDimInv := mx }
+      match estimateCall p { which := w, disp := disp, userX0 := ux, probeStart := ps, probeZeros := pz } with
+      | none => "raise"
+      | some o =>
+        let r := match o.solver with | none => "direct" | some .lbfgsb => "lbfgsb" | some .minimize => "minimize"
+        s!"route={r} grad={fmtBool o.hasGrad} start={if o.startIsUser then "user" else "ones"} label={o.label} geom={if o.geomOfPosterior then "posterior" else "likelihood"} lines={"|".intercalate o.printed}"
+    | _, _, _, _, _, _, _, _, _, _, _ => "bad-op"
+  | ["chol", c] =>
+    match parseMatFn c with
+    | some (r, k, C) =>
+      if r ≠ k then "err:LinAlgError" else
+      match choleskyLDL facQ r C with
+      | .ok (Lu, d) => s!"lu={fmtMat (tabM r r Lu)} d={fmtVec (tabV r d)}"
+      | .error _ => "err:LinAlgError"
+    | none => "bad-op"
   | ["loop", xm, l, ns, cb, nb, st] =>
     let nb? : Option (Option Nat) := if nb = "-" then some none else nb.toNat?.map some
     match parseVec xm, parseMatFn l, ns.toNat?, parseBool cb, nb?, parseVec st with
